@@ -2,7 +2,7 @@
 # run all quick checks on the clean /repo tree and refuse to go on unless every one exits 0
 cd "$(dirname "$0")"
 [ -z "$(git -C /repo status --short | grep -v '^??')" ] || { echo "/repo has uncommitted changes"; exit 1; }
-bin/govc locals . ./bmr ./circuit ./compiler/circuits ./ot ./p2p ./sha2pc ./vole ./env ./types >/dev/null || { echo "locals failed"; exit 1; }
+bin/govc locals . ./bmr ./gmw ./circuit ./compiler/circuits ./ot ./p2p ./sha2pc ./vole ./env ./types >/dev/null || { echo "locals failed"; exit 1; }
 out=$(./runall.sh 2>&1)
 echo "$out" | grep "rc="
 if echo "$out" | grep "rc=" | grep -qv "rc=0"; then echo "NOT CLEAN: do not commit"; exit 1; fi
